@@ -27,4 +27,14 @@ theorem quantize_rejects (x0 y0 x1 y1 f : Q) (hf : f < 1) :
   simp only [Tr.quantize_bounding_rect, Py.assert, this, bind, Except.bind]
   rfl
 
+/-- the default clip-box step as translated from the current write_font.py is `round(upem / 50)` -/
+theorem default_quantization_eq (c : Py.Config) :
+    Tr.default_clipbox_quantization c = .ok ((defaultClipQuant c.upem : Int) : Q) := by
+  simp only [Tr.default_clipbox_quantization, defaultClipQuant, Py.round, pure, Except.pure]
+  have : mkQ 1 50 = (1 / 50 : Q) := by unfold mkQ; norm_num
+  rw [this]
+
+/-- 2048 → 41, 1024 → 20, 1000 → 20, 4096 → 82 (a floored upem // 50 would give 40 and 81) -/
+example : defaultClipQuant 2048 = 41 ∧ defaultClipQuant 1024 = 20 ∧ defaultClipQuant 1000 = 20 ∧ defaultClipQuant 4096 = 82 := by decide +kernel
+
 end NanoVerif.TrProofs
